@@ -285,3 +285,38 @@ def selectors_obligation(prop):
 
     return Obligation("OX.S", "named row selectors are not reused after the column they test was rewritten (def-use rule over the property's modules)",
                       run, floor=1)
+
+
+def constructors_obligation(classes, oid="OX.C"):
+    """a particle list built from a 20-field table holds exactly that table: every field is the input's field (missing values
+    become 0, the index is renumbered), the same particles in the same order"""
+    from sa.report import Obligation
+
+    def run(ctx):
+        cols = list(ctx.prog.class_attr("cryomotl.Motl", "motl_columns"))
+        for cls in classes:
+            q = cls + ".__init__"
+            m, fn = ctx.prog.func(q)
+            ctx.touched(q, "cryomotl.Motl.check_df_type")
+            it = Interp(ctx.prog)
+            src = motl_frame(ctx.prog, name="input", prefix="in:")
+            me = Obj(cls, {})
+            it.run(q, [src], {}, self_obj=me)
+            df = me.attrs.get("df")
+            if not isinstance(df, Frame):
+                raise Unsupported(f"{cls}(table) leaves no table in self.df", fn)
+            same_rows_same_order(ctx, q, df, src, f"{cls.split('.')[-1]}(table) keeps the particles and their order", fn, m)
+            for c in cols:
+                ctx.count(1)
+                got = df.cols.get(c)
+                if got is None or got != sym("in:" + c):
+                    site = last_store(it, df, c) or fn
+                    ctx.finding(q, f"field {c}", f"{cls.split('.')[-1]}(table): field {c} must be the input's {c} unchanged (apart from missing "
+                                f"values -> 0); it becomes {tm.show(got)[:120] if got is not None else 'absent'}", site, m)
+            extra = [n for n in df.notes if n[0] not in ("reset_index", "fillna", "astype")]
+            ctx.count(1, {"class": cls, "table history": [str(n) for n in df.notes]})
+            if extra:
+                ctx.finding(q, "table history", f"{cls.split('.')[-1]}(table) must only renumber the index and fill missing values; found {extra}", fn, m)
+
+    return Obligation(oid, "construction from a table copies the 20 fields unchanged, same particles, same order (" + ", ".join(c.split(".")[-1] for c in classes) + ")",
+                      run, floor=20 * len(classes))
